@@ -2,9 +2,10 @@
 import os
 import random
 from ..comp import chp as CH
+from ..comp import chpprof as CP
 
 ID = 'C06'
-THEOREMS = CH.THEOREMS
+THEOREMS = CH.THEOREMS + CP.THEOREMS_C06_PROFILE
 PARTIAL = CH.PARTIAL
 MODELLED = CH.MODELLED
 COMPONENTS = ['CHP/Plant builder (on the real Contract base problem) vs CHPAsset.setup_optim_problem: exact rows over all include-flag combinations, incl. start/shutdown ramp profiles (with heat variants and _convert_ramp), CHPAsset_with_min_load_costs and costs_only', 'unit-commitment automaton (model) vs feasibility of pinned on/off patterns in the REAL asset problem (HiGHS)']
